@@ -362,6 +362,39 @@ theorem invA_setPrepared (s : St) (f : Addr → Option (List Pid)) (h : InvA s) 
 theorem invA_touch (s : St) (p : ObjId) (h : InvA s) : InvA (touch s p) :=
   invA_updGhost s p _ h rfl rfl rfl rfl rfl (Nat.le_refl _)
 
+theorem foldl_pres {α β : Type} (P : α → Prop) (f : α → β → α) (h : ∀ a b, P a → P (f a b)) :
+    ∀ (l : List β) (a : α), P a → P (List.foldl f a l) := by
+  intro l
+  induction l with
+  | nil => intro a ha; exact ha
+  | cons b bs ih => intro a ha; exact ih _ (h a b ha)
+
+theorem putAll_pres (P : St → Prop) (c : Cfg) (p : ObjId)
+    (h : ∀ t x ev val, P t → P (putChars c t p x ev val)) (s : St) (qs : List (Cid × Option Bool × Option Val)) (hs : P s) :
+    P (putAll c s p qs) := by
+  simp only [putAll]
+  apply foldl_pres P
+  · intro t q ht
+    split
+    · exact ht
+    · exact h t _ _ _ ht
+  · exact foldl_pres P _ (fun t q ht => h t _ _ _ ht) qs s hs
+
+theorem invA_putAll (c : Cfg) (s : St) (p : ObjId) (qs : List (Cid × Option Bool × Option Val)) (h : InvA s) : InvA (putAll c s p qs) :=
+  putAll_pres InvA c p (fun t x ev val ht => invA_putChars c t p x ev val ht) s qs h
+
+theorem invA_onPutMany (c : Cfg) (hc : c.fix13 = true) (s : St) (p : ObjId) (qs cl) (h : InvA s) :
+    InvA (onPutMany c s p qs cl).1 := by
+  simp only [onPutMany]
+  have hr : InvA (if (s.obj p).verified then respond (putAll c s p qs) p 204 Body.none
+           else respond s p 401 Body.none).1 := by
+    split
+    · exact invA_respond _ p 204 Body.none (invA_putAll c s p qs h)
+    · exact invA_respond _ p 401 Body.none h
+  split
+  · exact invA_closeP c hc _ _ hr
+  · exact hr
+
 theorem invA_onPut (c : Cfg) (hc : c.fix13 = true) (s : St) (p : ObjId) (x ev val cl) (h : InvA s) :
     InvA (onPut c s p x ev val cl).1 := by
   simp only [onPut]
@@ -383,6 +416,7 @@ theorem invA_onReq (c : Cfg) (hc : c.fix13 = true) (s : St) (p : ObjId) (r : Req
     · exact invA_closeP c hc _ _ h
     · exact invA_closeP c hc _ _ h
     · exact invA_onPut c hc _ _ _ _ _ _ h
+    · exact invA_onPutMany c hc _ _ _ _ h
     · split
       · exact invA_respond _ _ _ _ h
       · exact invA_respond _ _ _ _ h
@@ -691,6 +725,27 @@ theorem rel_onPut (c : Cfg) (s : St) (p : ObjId) (x ev val cl) : Rel (vtgt s p) 
   · exact Rel.trans hr (Rel.weaken (rel_closeP c _ p))
   · exact hr
 
+theorem rel_putAll (c : Cfg) (s : St) (p : ObjId) (qs : List (Cid × Option Bool × Option Val)) :
+    Rel (some (s.obj p).addr) s (putAll c s p qs) := by
+  apply putAll_pres (fun t => Rel (some (s.obj p).addr) s t) c p
+  · intro t x ev val ht
+    have h1 := rel_putChars c t p x ev val
+    rw [ht.addr p] at h1
+    exact Rel.trans ht h1
+  · exact Rel.refl _ _
+
+theorem rel_onPutMany (c : Cfg) (s : St) (p : ObjId) (qs cl) : Rel (vtgt s p) s (onPutMany c s p qs cl).1 := by
+  simp only [onPutMany]
+  have hr : Rel (vtgt s p) s (if (s.obj p).verified then respond (putAll c s p qs) p 204 Body.none
+           else respond s p 401 Body.none).1 := by
+    split
+    · rename_i hv; simp only [vtgt, hv, if_true]
+      exact Rel.trans (rel_putAll c s p qs) (Rel.weaken (rel_respond _ _ _ _))
+    · exact Rel.weaken (rel_respond _ _ _ _)
+  split
+  · exact Rel.trans hr (Rel.weaken (rel_closeP c _ p))
+  · exact hr
+
 theorem rel_onReq (c : Cfg) (s : St) (p : ObjId) (r : Req) : Rel (vtgt s p) s (onReq c s p r).1 := by
   simp only [onReq]
   split
@@ -699,6 +754,7 @@ theorem rel_onReq (c : Cfg) (s : St) (p : ObjId) (r : Req) : Rel (vtgt s p) s (o
     · exact Rel.weaken (rel_closeP c s p)
     · exact Rel.weaken (rel_closeP c s p)
     · exact rel_onPut c s p _ _ _ _
+    · exact rel_onPutMany c s p _ _
     · split
       · exact Rel.weaken (rel_respond _ _ _ _)
       · exact Rel.weaken (rel_respond _ _ _ _)
@@ -1072,6 +1128,14 @@ theorem writesOnly_onReq (c : Cfg) (s : St) (q : ObjId) (r : Req) : writesOnly q
     · rename_i x ev val cl
       simp only [onPut]
       have hr : writesOnly q (if (s.obj q).verified then respond (putChars c s q x ev val) q 204 Body.none
+           else respond s q 401 Body.none).2 := by
+        split <;> exact writesOnly_respond _ _ _ _
+      split
+      · exact writesOnly_append hr (writesOnly_closeP c _ q)
+      · exact hr
+    · rename_i qs cl
+      simp only [onPutMany]
+      have hr : writesOnly q (if (s.obj q).verified then respond (putAll c s q qs) q 204 Body.none
            else respond s q 401 Body.none).2 := by
         split <;> exact writesOnly_respond _ _ _ _
       split
@@ -1532,6 +1596,17 @@ theorem invQ_onReq (c : Cfg) (s : St) (p : ObjId) (r : Req) (h : InvQ c s) : Inv
       split
       · exact invQ_closeP c _ p hr
       · exact hr
+    · rename_i qs cl
+      simp only [onPutMany]
+      have hr : InvQ c (if (s.obj p).verified then respond (putAll c s p qs) p 204 Body.none
+           else respond s p 401 Body.none).1 := by
+        split
+        · exact invQ_respond c _ p _ _
+            (putAll_pres (InvQ c) c p (fun t x ev val ht => invQ_putChars c t p x ev val ht) s qs h)
+        · exact invQ_respond c _ p _ _ h
+      split
+      · exact invQ_closeP c _ p hr
+      · exact hr
     · split <;> exact invQ_respond c _ p _ _ h
     · split
       · exact invQ_respond c { s with prepared := _ } p _ _ h
@@ -1703,6 +1778,14 @@ theorem noEvent_onReq (c : Cfg) (s : St) (q : ObjId) (r : Req) : noEvent (onReq 
     · rename_i x ev val cl
       simp only [onPut]
       have hr : noEvent (if (s.obj q).verified then respond (putChars c s q x ev val) q 204 Body.none
+           else respond s q 401 Body.none).2 := by
+        split <;> exact noEvent_respond _ _ _ _
+      split
+      · exact noEvent_append hr (noEvent_closeOuts _ _)
+      · exact hr
+    · rename_i qs cl
+      simp only [onPutMany]
+      have hr : noEvent (if (s.obj q).verified then respond (putAll c s q qs) q 204 Body.none
            else respond s q 401 Body.none).2 := by
         split <;> exact noEvent_respond _ _ _ _
       split
